@@ -102,6 +102,13 @@ def cases(ctx, budget):
     for r in rules:
         for s in smalls:
             out.append((r, s))
+    # long runs of plain text (the hand-optimised rule works on whole runs): around powers of two and beyond
+    sizes = [255, 256, 1023, 1025, 4095, 4096, 4097, 8193, 65535, 65537] + ([100001, 300000] if (budget > 1 or not ctx.quick) else [])
+    for n in sizes:
+        run = ('ab c' * (n // 4 + 1))[:n]
+        for r in ('non_inline_start', 'inline', 'line'):
+            out.append((r, run + '\n'))
+        out.append(('line', run + '**b** ' + run + '\n'))
     return out
 
 def compare(x, y):
